@@ -2127,18 +2127,29 @@ func (p *Posix) ListMultipartUploads(_ context.Context, mpu *s3.ListMultipartUpl
 		}, nil
 	}
 
+	// uploads are listed by key, then by upload id
 	sort.SliceStable(uploads, func(i, j int) bool {
-		return uploads[i].Key < uploads[j].Key
+		if uploads[i].Key != uploads[j].Key {
+			return uploads[i].Key < uploads[j].Key
+		}
+		return uploads[i].UploadID < uploads[j].UploadID
 	})
 
-	for i := keyMarkerInd + 1; i < len(uploads); i++ {
+	for i := 0; i < len(uploads); i++ {
 		if maxUploads == 0 {
 			break
 		}
-		if keyMarker != "" && uploadIDMarker != "" && uploads[i].UploadID < uploadIDMarker {
-			continue
+		// the listing continues after the (key-marker, upload-id-marker)
+		// position; without an upload id marker it continues after the
+		// marker key altogether
+		if keyMarker != "" {
+			after := uploads[i].Key > keyMarker ||
+				(uploads[i].Key == keyMarker && uploadIDMarker != "" && uploads[i].UploadID > uploadIDMarker)
+			if !after {
+				continue
+			}
 		}
-		if i != len(uploads)-1 && len(resultUpds) == maxUploads {
+		if len(resultUpds) == maxUploads {
 			return s3response.ListMultipartUploadsResult{
 				Bucket:             bucket,
 				Delimiter:          delimiter,
